@@ -782,7 +782,11 @@ EGLPNUM_TYPENAME_QSLIB_INTERFACE EGLPNUM_TYPENAME_QSdata *EGLPNUM_TYPENAME_QScop
 
 	if (p->qslp->intmarker != 0)
 	{
-		ILL_SAFE_MALLOC (p2->qslp->intmarker, p->qslp->nstruct, char);
+		/* as long as the other per-column arrays of p2: ILLlib_addcol writes
+		 * intmarker[nstruct] and only grows the array together with them */
+		ILL_SAFE_MALLOC (p2->qslp->intmarker,
+										 p2->qslp->structsize > p->qslp->nstruct ?
+										 p2->qslp->structsize : p->qslp->nstruct, char);
 
 		for (j = 0; j < p->qslp->nstruct; j++)
 		{
